@@ -1,5 +1,5 @@
 (* Unix instance lemmas: the model's component iterator against the spec ucomps. *)
-From Coq Require Import List NArith Bool Lia.
+From Coq Require Import List NArith Bool Lia Arith PeanoNat.
 Import ListNotations.
 From TP Require Import Core CoreProofs CoreSched Path Unix Spec Ops.
 Open Scope N_scope.
@@ -102,4 +102,161 @@ Proof.
                       (map (fun x => (fst x, u_remaining (snd x))) steps)) by (rewrite map_map; reflexivity).
     rewrite E. apply all2_map_r. intros x. cbn [fst snd]. rewrite ocomp_eqb_refl, list_eqb_refl. reflexivity.
   - apply all2_refl. intros x. rewrite ocomp_eqb_refl, list_eqb_refl. reflexivity.
+Qed.
+
+(* ------------------------------------------------------------------ C03 (Unix) *)
+Lemma u_front_all_collect fuel s : front_all ustate comp u_nextf fuel s = front_collect usep true fuel s.
+Proof. revert s. induction fuel as [|f IH]; intros s; [reflexivity|]. cbn [front_all front_collect]. unfold u_nextf. destruct (next_front usep true s) as [[c s']|]; [rewrite IH|]; reflexivity. Qed.
+Lemma u_back_all_collect fuel s : back_all ustate comp u_nextb fuel s = back_collect usep true fuel s.
+Proof. revert s. induction fuel as [|f IH]; intros s; [reflexivity|]. cbn [back_all back_collect]. unfold u_nextb. destruct (next_back usep true s) as [[c s']|]; [rewrite IH|]; reflexivity. Qed.
+
+Theorem u_back_is_rev_front p : u_components_rev p = rev (u_components p).
+Proof.
+  unfold u_components_rev, components_rev, u_components, components, u_init.
+  rewrite u_front_all_collect, u_back_all_collect.
+  apply (back_is_rev_front usep true usep_dot (AtBeg, p) eq_refl).
+Qed.
+Theorem u_components_fuel_stable p k :
+  front_all ustate comp u_nextf (S (length p) + k) (u_init p) = u_components p.
+Proof.
+  unfold u_components, components, u_init. rewrite !u_front_all_collect.
+  apply (front_collect_stable usep true usep_dot (AtBeg, p) k eq_refl).
+Qed.
+(* every state a schedule reaches: once no component is left, every further step from
+   either end answers None and leaves the iterator where it is *)
+Theorem u_exhausted_stays p sched :
+  Forall (fun x => ucomps (u_remaining (snd x)) = [] ->
+                   forall sched2, sched_run u_nextf u_nextb (snd x) sched2 = map (fun _ => (None, snd x)) sched2)
+         (sched_run u_nextf u_nextb (u_init p) sched).
+Proof.
+  pose proof (sched_inv usep true usep_dot sched (AtBeg, p) eq_refl) as F.
+  unfold u_nextf, u_nextb, u_init, ustate in *.
+  eapply Forall_impl; [|exact F]. intros x HI E sched2.
+  apply (exhausted_stays usep true usep_dot (snd x) HI).
+  rewrite <- (ucomps_state (snd x) HI). exact E.
+Qed.
+
+(* ------------------------------------------------------------------ C09 (Unix) *)
+Definition removable_c (c : comp) : bool := c_is_normal c || c_is_current c || c_is_parent c.
+Lemma removable_not_root c : removable_c c = negb (c_is_root c).
+Proof. destruct c; reflexivity. Qed.
+
+Lemma u_nextb_init_spec p :
+  match u_nextb (u_init p) with
+  | Some (c, s') => ucomps p = ucomps (u_remaining s') ++ [c] /\ (exists j, p = u_remaining s' ++ j)
+  | None => ucomps p = []
+  end.
+Proof.
+  unfold u_nextb, u_init. rewrite ucomps_cs.
+  pose proof (next_back_spec usep true usep_dot (AtBeg, p) eq_refl) as B.
+  destruct (next_back usep true (AtBeg, p)) as [[c s']|]; [|exact B].
+  destruct B as (E & HI & J). split; [|exact J]. rewrite E. f_equal. symmetry. apply ucomps_state. exact HI.
+Qed.
+
+Theorem u_parent_some p r : u_parent p = Some r ->
+  (exists j, p = r ++ j) /\ ucomps r = removelast (ucomps p) /\
+  (exists c, ucomps p = ucomps r ++ [c] /\ removable_c c = true).
+Proof.
+  unfold u_parent, parent. pose proof (u_nextb_init_spec p) as B.
+  destruct (u_nextb (u_init p)) as [[c s']|]; [|discriminate].
+  destruct B as (E & J). destruct (c_is_normal c || c_is_current c || c_is_parent c) eqn:Hc; [|discriminate].
+  intros X. inversion X; subst r. split; [exact J|]. split.
+  - rewrite E. rewrite removelast_last. reflexivity.
+  - exists c. split; [exact E | exact Hc].
+Qed.
+Theorem u_parent_none p : u_parent p = None <-> (ucomps p = [] \/ exists cs, ucomps p = cs ++ [Root]).
+Proof.
+  unfold u_parent, parent. pose proof (u_nextb_init_spec p) as B.
+  destruct (u_nextb (u_init p)) as [[c s']|].
+  - destruct B as (E & J). destruct (c_is_normal c || c_is_current c || c_is_parent c) eqn:Hc.
+    + split; [discriminate|]. intros [X | [cs X]].
+      * rewrite X in E. destruct (ucomps (u_remaining s')); discriminate.
+      * rewrite X in E. apply app_inj_tail in E as [_ <-]. discriminate.
+    + split; [|reflexivity]. intros _. right. exists (ucomps (u_remaining s')). rewrite E. destruct c; try discriminate. reflexivity.
+  - split; [intros _; left; exact B | reflexivity].
+Qed.
+Theorem u_pop_spec p :
+  u_pop p = match u_parent p with Some r => (r, true) | None => (p, false) end.
+Proof.
+  unfold u_pop, pop. fold u_parent. destruct (u_parent p) as [r|] eqn:E; [|reflexivity].
+  destruct (u_parent_some p r E) as ((j & ->) & _). rewrite firstn_app, firstn_all, PeanoNat.Nat.sub_diag. cbn. rewrite app_nil_r. reflexivity.
+Qed.
+Lemma u_parent_shorter p r : u_parent p = Some r -> (length r < length p)%nat.
+Proof.
+  intros E. destruct (u_parent_some p r E) as ((j & ->) & _ & (c & Hc & _)).
+  rewrite app_length. destruct j as [|x j]; [|cbn; lia].
+  exfalso. rewrite app_nil_r in Hc. apply (f_equal (@length comp)) in Hc. rewrite app_length in Hc. cbn in Hc. lia.
+Qed.
+Lemma u_ancestors_fuel_stable : forall n p a b, (length p <= n)%nat -> (length p < a)%nat -> (length p < b)%nat ->
+  ancestors_fuel ustate comp u_init u_nextb u_remaining c_is_normal c_is_parent c_is_current a (Some p)
+  = ancestors_fuel ustate comp u_init u_nextb u_remaining c_is_normal c_is_parent c_is_current b (Some p).
+Proof.
+  induction n as [|n IH]; intros p a b Hn Ha Hb.
+  - destruct a; [lia|]. destruct b; [lia|]. cbn [ancestors_fuel]. f_equal. fold u_parent.
+    destruct (u_parent p) as [r|] eqn:E; [|destruct a, b; reflexivity].
+    pose proof (u_parent_shorter p r E). lia.
+  - destruct a; [lia|]. destruct b; [lia|]. cbn [ancestors_fuel]. f_equal. fold u_parent.
+    destruct (u_parent p) as [r|] eqn:E; [|destruct a, b; reflexivity].
+    pose proof (u_parent_shorter p r E). apply IH; lia.
+Qed.
+Notation ANC := (ancestors_fuel ustate comp u_init u_nextb u_remaining c_is_normal c_is_parent c_is_current).
+Lemma anc_step n p : ANC (S n) (Some p) = p :: ANC n (u_parent p).
+Proof. reflexivity. Qed.
+(* ancestors is the chain of repeated parents beginning with the path itself *)
+Theorem u_ancestors_unfold p :
+  u_ancestors p = p :: match u_parent p with Some r => u_ancestors r | None => [] end.
+Proof.
+  unfold u_ancestors, ancestors. rewrite anc_step. f_equal.
+  destruct (u_parent p) as [r|] eqn:E; [|reflexivity].
+  pose proof (u_parent_shorter p r E).
+  apply (u_ancestors_fuel_stable (length r)); lia.
+Qed.
+Lemma anc_length n : forall o, (length (ANC n o) <= n)%nat.
+Proof.
+  induction n as [|n IH]; intros o; [cbn; lia|].
+  destruct o as [q|]; [|cbn; lia]. rewrite anc_step. cbn [length]. specialize (IH (u_parent q)). lia.
+Qed.
+Theorem u_ancestors_finite p : (length (u_ancestors p) <= S (S (length p)))%nat.
+Proof. unfold u_ancestors, ancestors. apply anc_length. Qed.
+
+(* ------------------------------------------------------------------ C12 *)
+Lemma span_ndot_spec l : forall a r, span_ndot l = (a, r) ->
+  l = a ++ r /\ forallb (fun b => negb (b =? 46)) a = true /\ (r = [] \/ exists r', r = 46 :: r').
+Proof.
+  induction l as [|b l IH]; cbn; intros a r H.
+  - inversion H; subst. auto.
+  - destruct (b =? 46) eqn:Hb.
+    + inversion H; subst. apply N.eqb_eq in Hb. subst. split; [reflexivity|]. split; [reflexivity|]. right. eauto.
+    + destruct (span_ndot l) as [a' r'] eqn:Hs. inversion H; subst.
+      destruct (IH a' r eq_refl) as (-> & Ha & Hr). split; [reflexivity|]. split; [|assumption]. cbn. rewrite Hb. assumption.
+Qed.
+(* stem, a dot and the extension reproduce the name when an extension exists; the stem is the whole name otherwise *)
+Theorem rsplit_reproduces n :
+  let (before, after) := rsplit_file_at_dot n in
+  match opt_and before after with
+  | Some e => exists st, opt_or before after = Some st /\ n = st ++ 46 :: e /\ st <> []
+                         /\ forallb (fun b => negb (b =? 46)) e = true
+  | None => opt_or before after = Some n
+  end.
+Proof.
+  unfold rsplit_file_at_dot. destruct (beq_list n [46; 46]); [reflexivity|].
+  destruct (span_ndot (rev n)) as [a r] eqn:Hs.
+  destruct (span_ndot_spec _ _ _ Hs) as (Hn & Ha & Hr).
+  destruct r as [|d before_r]; [reflexivity|].
+  destruct Hr as [X | [r' X]]; [discriminate|]. inversion X; subst d r'.
+  destruct before_r as [|x t]; [reflexivity|].
+  cbn [opt_and opt_or]. exists (rev (x :: t)). split; [reflexivity|].
+  apply (f_equal (@rev byte)) in Hn. rewrite rev_involutive in Hn. rewrite Hn.
+  rewrite rev_app_distr. cbn [rev]. rewrite <- !app_assoc. cbn [app].
+  split; [reflexivity|]. split.
+  - intros E. apply (f_equal (@length byte)) in E. rewrite app_length in E. cbn in E. lia.
+  - rewrite forallb_forall in *. intros y Hy. apply Ha. apply (proj2 (in_rev a y)). exact Hy.
+Qed.
+Theorem u_file_name_spec p :
+  u_file_name p = match rev (ucomps p) with Normal n :: _ => Some n | _ => None end.
+Proof.
+  unfold u_file_name, file_name. pose proof (u_nextb_init_spec p) as B.
+  destruct (u_nextb (u_init p)) as [[c s']|].
+  - destruct B as (E & _). rewrite E. rewrite rev_app_distr. cbn. destruct c; reflexivity.
+  - rewrite B. reflexivity.
 Qed.
